@@ -185,7 +185,7 @@ def judgePair (base : String) (tol : Rat) (tolF : Float) (g og : BGeom) (inputSp
       let gp := simpleIn && lr.length ≤ 64 && Spec.GenPos lr
       -- beyond general position: collinear vertices in their order along the line (`Spec.ColOrdered`,
       -- theorem `C13_simple_collinear_ordered`): straight runs, lattice walks that never re-enter a line
-      let ord := simpleIn && !gp && lr.length ≤ 64 && Spec.ColOrdered lr
+      let ord := simpleIn && !gp && lr.length ≤ 40 && Spec.ColOrdered lr
       let kind := if gp then "-simplegp" else if ord then "-simpleord" else if simpleIn then "-simple" else ""
       let dropped := if orr.length < lr.length then "-drop" else ""
       let long := if lr.length > 64 && orr.length * 65 < lr.length then "-longrun" else ""
